@@ -91,6 +91,19 @@ CHECKS = {
             "No symlinks inside the root; FTP command sequences against the running service are a second level (see DESIGN.md).",
             "TLA+ spec + TLC exhaustive, one implementation test per model transition",
             "DESIGN.md §3 C11"),
+    "C03": ("model_checking",
+            "Sessions.tla models K connections served by one shared service object at request/response granularity with a free "
+            "protocol (a connection's output may depend on its own request history and nothing else); TLC checks NonInterference "
+            "(every connection observes exactly Solo(c)) over all interleavings and requires the two deviations transcribing the "
+            "code's shared variables to violate it; the interleavings TLC enumerates (2 sessions x 5 steps: 252, 3 sessions x 4/5 "
+            "steps) are sampled by seed - always with the sequential ones and histories of 4..6 earlier sessions - and executed "
+            "step by step against one real server instance per scenario (fresh process) for ldap, ftp, smtp, telnet, redis, "
+            "memcached, http and tftp; each connection's replies and events (addresses, session-id structure, command fields) "
+            "must equal what the same script obtains alone on a fresh server.",
+            "Lock-step request/response granularity; volatile fields masked (dates, session-id values, passive ports, Go-map "
+            "ordering of FEAT / LDAP attribute lists); a disagreement counts only if it reproduces in a second fresh process.",
+            "TLA+ spec + TLC exhaustive interleavings, schedule replay into the real server, solo-run oracle from the specification",
+            "DESIGN.md §3 C03"),
 }
 
 NOT_YET = "check not built yet in this session (see DESIGN.md §10 for the order of construction)"
